@@ -212,39 +212,35 @@ func (m *Machine) dolevYao(name string, fn *ssa.Function, args []Value) (Value, 
 		if layout != "2006-01-02" {
 			return m.strConst("<formatted time>"), true
 		}
-		t := args[0].(*Node)
-		ext := m.term(t.elems[1])
-		unix := tt.Bin("bvsub", ext, tt.Const(64, 62135596800))
-		off := tt.Const(64, 0)
-		if loc, ok := t.elems[2].(Ptr); ok && !loc.isNil() {
-			if o, ok := m.zoneOff[loc.node]; ok {
-				off = o
-			} else {
-				// time.Local or another location: an arbitrary offset in -12h..+14h, one per location object
-				if m.locOff == nil {
-					m.locOff = map[*Node]*Term{}
-				}
-				o, ok := m.locOff[loc.node]
-				if !ok {
-					o = m.fresh(64, "zoneoffset")
-					m.sol().Assert(tt.Cmp("bvsle", tt.Const(64, negU64(12*3600)), o))
-					m.sol().Assert(tt.Cmp("bvsle", o, tt.Const(64, 14*3600)))
-					m.locOff[loc.node] = o
-				}
-				off = o
-			}
-		}
-		local := tt.Bin("bvadd", unix, off)
-		if !m.branch(tt.Cmp("bvsle", tt.Const(64, 0), local)) {
-			m.end("assumed", "calendar day of an instant before 1970 (stated restriction of the time.Format stub)")
-		}
-		day := tt.Bin("bvudiv", local, tt.Const(64, 86400))
+		day := m.localDay(args[0].(*Node))
 		in := make([]*Term, 8)
 		for i := 0; i < 8; i++ {
 			in[i] = tt.Extract(day, 8*i+7, 8*i)
 		}
 		m.called["time.Format:date"] = true
 		return Str{m.idealFn("calendar-day-string", in, 10, true)}, true
+	case name == "(time.Time).Date" || name == "(time.Time).Year" || name == "(time.Time).Month" || name == "(time.Time).Day" || name == "(time.Time).YearDay":
+		// civil date = injective uninterpreted function of the local calendar day number
+		day := m.localDay(args[0].(*Node))
+		in := make([]*Term, 8)
+		for i := 0; i < 8; i++ {
+			in[i] = tt.Extract(day, 8*i+7, 8*i)
+		}
+		c := m.idealFn("civil-date", in, 4, true)
+		y := tt.Zext(tt.Concat(c[0], c[1]), 64)
+		mo := tt.Zext(c[2], 64)
+		d := tt.Zext(c[3], 64)
+		switch fn.Name() {
+		case "Date":
+			return Tuple{y, mo, d}, true
+		case "Year":
+			return y, true
+		case "Month":
+			return mo, true
+		case "Day":
+			return d, true
+		}
+		return tt.Zext(tt.Concat(c[2], c[3]), 64), true
 	}
 	return nil, false
 }
@@ -260,3 +256,34 @@ func zeros(tt *TermTable, n int) []*Term {
 func make16(tt *TermTable) []*Term { return zeros(tt, 16) }
 
 func negU64(v int64) uint64 { return uint64(-v) }
+
+// localDay is floor((unix seconds + zone offset) / 86400) of a time.Time value: zone offset 0 for UTC, the
+// offset given to time.FixedZone for such locations, an arbitrary offset in -12h..+14h for any other location.
+func (m *Machine) localDay(t *Node) *Term {
+	tt := m.tt
+	ext := m.term(t.elems[1])
+	unix := tt.Bin("bvsub", ext, tt.Const(64, 62135596800))
+	off := tt.Const(64, 0)
+	if loc, ok := t.elems[2].(Ptr); ok && !loc.isNil() {
+		if o, ok := m.zoneOff[loc.node]; ok {
+			off = o
+		} else {
+			if m.locOff == nil {
+				m.locOff = map[*Node]*Term{}
+			}
+			o, ok := m.locOff[loc.node]
+			if !ok {
+				o = m.fresh(64, "zoneoffset")
+				m.sol().Assert(tt.Cmp("bvsle", tt.Const(64, negU64(12*3600)), o))
+				m.sol().Assert(tt.Cmp("bvsle", o, tt.Const(64, 14*3600)))
+				m.locOff[loc.node] = o
+			}
+			off = o
+		}
+	}
+	local := tt.Bin("bvadd", unix, off)
+	if !m.branch(tt.Cmp("bvsle", tt.Const(64, 0), local)) {
+		m.end("assumed", "calendar day of an instant before 1970 (stated restriction of the time stubs)")
+	}
+	return tt.Bin("bvudiv", local, tt.Const(64, 86400))
+}
